@@ -128,8 +128,8 @@ def sc_arrays(B, kind, C, D, rU, rV, n_arrays):
 def sc_fit_arrays(B, kind, dask):
     """fit_using_array(X, y) == fit(per-row UBM statistics of X, y)"""
     C, D, rU, rV = 1, 1, 1, 1
-    labels = [0, 1, 0, 1]
-    X = B.arr("x", (4, D))
+    labels = [0, 1, 1]  # asymmetric class sizes: a mis-pairing of rows and labels changes the partition
+    X = B.arr("x", (3, D))
 
     def build():
         return fa.make_fa(B, kind, C, D, rU, rV, em_iterations=1)
@@ -139,7 +139,7 @@ def sc_fit_arrays(B, kind, dask):
     m, M2 = build()
     if dask:
         B.executor("fifo", False)
-    m.fit_using_array(B.copy(X) if not dask else B.darr(B.copy(X), ((1, 3), (D,))), list(labels))
+    m.fit_using_array(B.copy(X) if not dask else B.darr(B.copy(X), ((1, 2), (D,))), list(labels))
     o = Outcome()
     o.same("U", m.U, ref.U)
     if kind == "jfa":
